@@ -226,7 +226,53 @@ def fam_conf():
             tok("text", d="txt"), tok("comment", d="cmt")]
     return dict(name="conf", recipes=recipes, tokens=toks)
 
-FAMS = dict(conf=fam_conf, loop=fam_loop, loopq=fam_loopq, link=fam_link, url=fam_url, forced=fam_forced, allow=fam_allow, style=fam_style)
+def fam_ugc():
+    """C04: the shipped policies against vocabulary tokens and hostile tokens."""
+    recipes = [[call("UGCPolicy")], [call("StrictPolicy")]]
+    js = "javascript:alert(1)"
+    toks = [tok("start", "p"), tok("end", "p"), tok("start", "b"), tok("end", "b"),
+            tok("start", "a", (("href", "http://e.com/x"),)), tok("start", "a", (("href", js),)), tok("start", "a", (("href", "/r"), ("onclick", "x"), ("style", "color:red"))),
+            tok("end", "a"), tok("start", "img", (("src", "/i.png"), ("alt", "x"))), tok("start", "img", (("src", "x"), ("onerror", "alert(1)"))),
+            tok("start", "img", (("src", "data:image/png;base64,iVBORw0KGgo="),)),
+            tok("start", "td", (("colspan", "2"),)), tok("end", "td"), tok("start", "table"), tok("end", "table"),
+            tok("start", "del", (("cite", js),)), tok("start", "q", (("cite", "http://e.com/"),)), tok("end", "q"),
+            tok("start", "script"), tok("end", "script"), tok("start", "style"), tok("end", "style"), tok("self", "script"),
+            tok("start", "iframe", (("src", "http://e.com"),)), tok("end", "iframe"), tok("start", "object"), tok("end", "object"),
+            tok("start", "svg"), tok("start", "math"), tok("start", "form"), tok("start", "input", (("type", "image"), ("src", js))),
+            tok("start", "base", (("href", "//x"),)), tok("start", "meta"), tok("start", "link", (("rel", "stylesheet"), ("href", "x"))),
+            tok("start", "textarea"), tok("end", "textarea"), tok("start", "title"), tok("end", "title"),
+            tok("text", d="txt"), tok("comment", d="cmt"), tok("comment", d="[CDATA[x]]"), tok("doctype", d="html")]
+    return dict(name="ugc", recipes=recipes, tokens=toks)
+
+def fam_policy():
+    """C17: the builder API on two instances."""
+    def AS(props, scope, els=(), pat="", handler="", enum="", re=""):
+        return call("AllowStyles", props=list(props), scope=scope, els=list(els), pat=pat, handler=handler, enum=enum, re=re)
+    hx = "f:verifharness/h.URLPolExampleHost"
+    calls = [
+        call("AllowElements", names=["B", "p"]), call("AllowElements", names=["b"]),
+        AA(["class"], ["span"], match="re:^[a-z]+$"), AA(["CLASS"], [], match="re:^[0-9]+$"), AA(["Title"], pat="^custom-", noattrs=True),
+        AA([], ["A"], noattrs=True), AA(["href"], ["a"]),
+        AS(["color"], "glob"), AS(["COLOR"], "els", els=["Span"], enum="e:red|blue"),
+        call("AllowElementsMatching", pat="^x-"),
+        call("AllowURLSchemes", schemes=["HTTP"]), call("AllowURLSchemes", schemes=["mailto", "http"]),
+        call("AllowURLSchemeWithCustomPolicy", scheme="Http", fid=hx), call("AllowURLSchemesMatching", pat="^(ftp|tel)$"),
+        call("RequireNoFollowOnLinks", b=True), call("RequireNoFollowOnLinks", b=False),
+        call("AllowRelativeURLs", b=True), call("AllowRelativeURLs", b=False), call("RequireParseableURLs", b=False),
+        call("AddTargetBlankToFullyQualifiedLinks", b=True),
+        call("SkipElementsContent", names=["B", "div"]), call("AllowElementsContent", names=["SCRIPT", "b", "object"]),
+        call("RequireSandboxOnIFrame", vals=["allow-forms"]), call("RequireSandboxOnIFrame", vals=["allow-scripts"]),
+        call("AllowIFrames", vals=["allow-forms", "allow-scripts"]),
+        call("AllowComments"), call("AllowDataAttributes"), call("AddSpaceWhenStrippingTag", b=True), call("AddSpaceWhenStrippingTag", b=False),
+        call("RequireCrossOriginAnonymous", b=True),
+        call("AllowStandardURLs"), call("AllowStandardAttributes"), call("AllowImages"), call("AllowLists"), call("AllowStyling"),
+        call("AllowDataURIImages"),
+    ]
+    ctorpairs = [[call("NewPolicy"), call("UGCPolicy")], [call("ZeroValue"), call("NewPolicy")],
+                 [call("UGCPolicy"), call("UGCPolicy")], [call("StrictPolicy"), call("ZeroValue")]]
+    return dict(name="policy", ctorpairs=ctorpairs, calls=calls, recipes=[], tokens=[])
+
+FAMS = dict(policy=fam_policy, ugc=fam_ugc, conf=fam_conf, loop=fam_loop, loopq=fam_loopq, link=fam_link, url=fam_url, forced=fam_forced, allow=fam_allow, style=fam_style)
 
 if __name__ == "__main__":
     here = os.path.dirname(os.path.abspath(__file__))
@@ -234,4 +280,4 @@ if __name__ == "__main__":
         with open(os.path.join(here, "fam_%s.json" % name), "w") as fh:
             json.dump(f(), fh, indent=None, sort_keys=True)
             fh.write("\n")
-        print(name, "recipes", len(f()["recipes"]), "tokens", len(f()["tokens"]))
+        print(name, "recipes", len(f().get("recipes", [])), "tokens", len(f().get("tokens", [])))
